@@ -432,6 +432,24 @@ def concat_parts(expr):
             else:
                 return None
         return out
+    if isinstance(expr, ast.IfExp) and not (isinstance(expr.body, ast.Constant) and isinstance(expr.orelse, ast.Constant)):
+        # f"Base{self.name}Client" if self.is_internal else f"{self.name}Client": two concatenations that differ in a leading literal
+        t = expr.test
+        neg = False
+        if isinstance(t, ast.UnaryOp) and isinstance(t.op, ast.Not):
+            t, neg = t.operand, True
+        a, b = concat_parts(expr.body), concat_parts(expr.orelse)
+        if a is not None and b is not None and isinstance(t, ast.Attribute) and isinstance(t.value, ast.Name) and t.value.id == "self":
+            k = 0
+            while k < min(len(a), len(b)) and a[len(a) - 1 - k] == b[len(b) - 1 - k]:
+                k += 1
+            pa, pb = a[:len(a) - k], b[:len(b) - k]
+            if all(x[0] == "lit" for x in pa + pb) and len(pa) <= 1 and len(pb) <= 1:
+                la, lb = (pa[0][1] if pa else ""), (pb[0][1] if pb else "")
+                if neg:
+                    la, lb = lb, la
+                return [("cond", t.attr, la, lb)] + a[len(a) - k:]
+        return None
     if isinstance(expr, ast.IfExp):
         t = expr.test
         neg = False
